@@ -8,7 +8,8 @@ EXTENDS Annot, Json
 CONSTANTS Depth,        \* length of the histories explored
           MaxSheets,
           Pairing,      \* "one": both enumerations of a save use the same seed (intended); "two": independent seeds (deviant)
-          Family,       \* "links": sheet list, links, comments, names, merges; "rest": the other kinds; "all": everything
+          Family,       \* "links": sheet list, links, comments, names, merges; "rest": the other kinds; "all": everything;
+                        \* "links1": as "links", starting from one sheet only (deeper histories)
           Wide,         \* TRUE: draw parameters at random (simulation)
           EmitReplay    \* TRUE: print one REPLAY line per behaviour of length Depth that ends with a save
 
@@ -61,9 +62,9 @@ AuSeeds  == Perms(AuthorPool \o <<"">>)
 Restrict(seed, S) == SelectSeq(seed, LAMBDA x : x \in S)
 Pick(S) == IF Wide THEN {RandomElement(S)} ELSE S
 
-MCInit == /\ \E n \in Pick({<<"S1">>, <<"S1", "My & Sheet">>}) : wb = InitWb(n) /\ hist = <<[a |-> "Init", sheets |-> n]>>
+MCInit == /\ \E n \in Pick(IF Family = "links1" THEN {<<"S1">>} ELSE {<<"S1">>, <<"S1", "My & Sheet">>}) : wb = InitWb(n) /\ hist = <<[a |-> "Init", sheets |-> n]>>
           /\ last = [op |-> "init"] /\ steps = 0
-L == Family \in {"links", "all"}
+L == Family \in {"links", "links1", "all"}
 R == Family \in {"rest", "all"}
 Sh == DOMAIN wb.sheets
 
